@@ -100,13 +100,69 @@ Theorem C02_bounded : forall W outcome evs s c,
 Proof. intros W outcome evs s c H. exact (bounded W outcome evs s c H). Qed.
 Print Assumptions C02_bounded.
 
+(* The failure case, any number of stages, NO hypothesis on the workflow: whatever the ordering and whichever
+   tasks exit unrecoverably, every final state a component ever receives is shut-down or the outcome of its own
+   executions under the restart policy (success -> finished, reason on the shutdown list -> shut down,
+   otherwise failed) — and the latter only if the component was launched (C01_launch_guard: against producers
+   none of which was failed, and none shut down for a non-aggregating consumer).  No component is failed or
+   finished "by accident".  Moreover, in a well-formed workflow whose same-stage producers of repeating
+   components finish, the final states are EXACTLY the rule-given ones for as long as finishedCheck has not
+   handled a failed component (calm): the outcome is independent of the ordering up to the first failure. *)
+Theorem C02_final_states_any : forall W outcome evs s,
+  run W true outcome state0 evs = Some s ->
+  (forall c f, ctl (dy s c) = Some f -> f = Shutdown \/ (0 < runs (dy s c) /\ f = walk0 W outcome c)) /\
+  (wf W -> subjects_ok W outcome -> calm s -> forall c f, ctl (dy s c) = Some f -> f = spec W outcome c).
+Proof.
+  intros W outcome evs s Hr.
+  destruct (run_K W outcome evs state0 s Inv_state0 (kbase_state0 W outcome) Hr) as [K _].
+  split; [exact (b_ctl _ _ _ K)|]. intros WF SB C.
+  exact (proj1 (b_calm _ _ _ K (conj WF (conj SB C)))).
+Qed.
+Print Assumptions C02_final_states_any.
+
+(* If some component of the stage has a failed rule-given state (some task exits unrecoverably), then in
+   every ordering, when the stage loop ends, some component is failed and has been handled by finishedCheck;
+   if it belongs to the stage that ends, the stage is reported failed (C02_failure_reported: and no further
+   stage starts).  Any number of stages. *)
+Theorem C02_failure_detected : forall W outcome evs s s' i c,
+  wf W -> subjects_ok W outcome ->
+  run W true outcome state0 evs = Some s -> cur s = Some i -> running s = true ->
+  step W true outcome s Tick = Some s' -> running s' = false ->
+  In c (stage_nodes W i) -> spec W outcome c = Failed ->
+  exists c', In c' (done s') /\ ctl (dy s' c') = Some Failed /\
+             (stage (cmp W c') = i -> verdict s' = Some VFailed).
+Proof.
+  intros W outcome evs s s' i c WF SB Hr Hc Hrun Ht Hrun' Hin Hsp.
+  destruct (run_ok W outcome evs state0 s Inv_state0 Hr) as [I _].
+  destruct (run_K W outcome evs state0 s Inv_state0 (kbase_state0 W outcome) Hr) as [K _].
+  pose proof (run_P W outcome evs state0 s Inv_state0 (pinv_state0 W) Hr) as P.
+  destruct (step_ok W outcome s Tick s' I Ht) as [I' _].
+  destruct (step_K W outcome s Tick s' I K Ht) as [K' _].
+  pose proof (step_P W outcome s Tick s' I P Ht) as P'.
+  destruct (stage_end_all_final W s s' i I Hc Hrun Ht Hrun') as [A [B _]].
+  destruct (A c Hin) as [Dc Fc].
+  destruct (Classical_calm s') as [C|NC].
+  - exfalso. unfold pstate in Fc. apply is_fin_ctl in Fc as [f Hf].
+    pose proof (proj1 (b_calm _ _ _ K' (conj WF (conj SB C))) c f Hf) as E. apply (C c Dc). congruence.
+  - destruct (not_calm_witness s' NC) as [c' [Hd Hf]]. exists c'. split; [exact Hd|split; [exact Hf|]].
+    intros Hs. apply B. exists c'. split.
+    + unfold stage_nodes. apply filter_In. split; [|rewrite Hs; apply Nat.eqb_refl].
+      unfold nodes. apply in_seq. split; [apply Nat.le_0_l|]. cbn. apply (q_range _ _ P').
+      destruct I' as [I1 _]. destruct (staged (dy s' c')) eqn:St; [reflexivity|].
+      destruct (l_unstaged _ (I1 c') St) as [_ [X _]]. congruence.
+    + unfold pstate, cstate. rewrite Hf. reflexivity.
+Qed.
+Print Assumptions C02_failure_detected.
+
 (* The failure case, for workflows of one stage: whatever the ordering and whichever tasks exit
    unrecoverably, every final state a component ever receives is its rule-given state or shut-down; as long
    as no failed component has been handled by finishedCheck the final states are exactly the rule-given ones,
    and from that moment on every component is staged, i.e. nothing is launched any more.  (With
-   C02_failure_reported: the stage is then reported failed.)  Same hypothesis on same-stage producers of
-   repeating components as C02_determinism; for several stages the statement is false of the code, because
-   components of later stages may still be launched after an earlier stage has failed. *)
+   C02_failure_detected / C02_failure_reported: the stage is then reported failed.)  Same hypothesis on
+   same-stage producers of repeating components as C02_determinism.  For several stages "rule-given or
+   shut-down" with the rule evaluated on the exit reasons alone is false of the code: components of later
+   stages may still be launched after an earlier stage has observed a failure, against producers that were
+   stopped (shut-down) rather than left to reach their own outcome — C02_final_states_any is what holds then. *)
 Theorem C02_failure_case : forall W outcome evs s,
   wf W -> (forall c, stage (cmp W c) = 0) ->
   (forall c p, In p (preds (cmp W c)) -> is_subject W c p = true -> spec W outcome p = Finished) ->
@@ -116,9 +172,9 @@ Theorem C02_failure_case : forall W outcome evs s,
   (~ calm s -> forall c, c < ncomp W -> staged (dy s c) = true).
 Proof.
   intros W outcome evs s WF SG SB Hr.
-  destruct (run_K W outcome WF SG SB evs state0 s Inv_state0 (kinv_state0 W outcome) Hr) as [K St].
-  split; [exact (b_ctl _ _ _ K)|split; [|exact St]].
-  intros C. exact (proj1 (b_calm _ _ _ K C)).
+  destruct (run_S W outcome WF SB SG evs state0 s Inv_state0 (kbase_state0 W outcome) (sinv_state0 W outcome) Hr) as [K S].
+  split; [exact (single_final W outcome WF s K S)|split; [|exact (proj1 S)]].
+  intros C. exact (proj1 (b_calm _ _ _ K (conj WF (conj SB C)))).
 Qed.
 Print Assumptions C02_failure_case.
 
